@@ -37,6 +37,10 @@ META = dict(
                 'file (16 + length <= file length, for every value of the size field); load under a memory limit that covers the file itself is the '
                 'plain load. A record followed by trailing bytes is still accepted. The planted 19-byte file with a 2 GiB size field (the repaired '
                 'defect) is a regression Example: no session, file removed, nothing requested. The '
+                'class crc32_calc (what save and load really call) is modelled and proved to compute, fed in any pieces, the CRC-32 of the whole input, which '
+                'depends on every single byte at any position; the header carries and the loader compares the CRC of the WHOLE value / data area for every '
+                'length; the text of the class and of its two call sites is tied rigidly, and the real class is run on buffers around every plausible block '
+                'boundary up to 1 MiB + 1 against zlib and the extracted model. The '
                 'bundled CRC table of private/crc32.h is regenerated from source and proved equal to the bit model, and the table-driven loop is '
                 'proved equal to the bit-by-bit CRC; the per-character test of session_sid::valid_sid is regenerated from source and proved equal to '
                 'the model on all 256 bytes; the zlib path, the write sequence and every other code path are tied by running the '
@@ -82,6 +86,35 @@ def gen_sid_leaf(ctx):
     except Exception as e:
         vlib.write_if_changed(out, '(* translator failed *)\nDefinition broken : False := I.\n')
         return str(e)
+
+
+CRC_CALC_BODY = ('class crc32_calc { public: crc32_calc() : value_(0) { } void process_bytes(void const *ptr,size_t n) { if(n==0) return; '
+                 'value_ = crc32(value_,reinterpret_cast<Bytef const *>(ptr),n); } uint32_t checksum() const { return value_; } '
+                 'private: uint32_t value_; };')
+
+
+def crc_calc_tie():
+    """rigid text tie of cppcms::impl::crc32_calc (private/crc32.h) to the model's crc32_calc/process_bytes (coq/C18/Defs.v): the class is a
+    few lines around one library call, which cxx2v cannot translate (member state, call to zlib); its text, comments and white space
+    removed, must be the text the model was written from. Any rewrite has to be looked at (and is exercised by the Z lines)."""
+    import re
+    try:
+        txt = open(os.path.join(vlib.REPO, 'private', 'crc32.h')).read()
+    except Exception as e:
+        return 'cannot read private/crc32.h: %s' % e
+    txt = re.sub(r'/\*.*?\*/', ' ', txt, flags=re.S)
+    txt = re.sub(r'//[^\n]*', ' ', txt)
+    m = re.search(r'class\s+crc32_calc\s*\{.*?\n\};', txt, re.S)
+    if not m:
+        return 'class crc32_calc not found in private/crc32.h'
+    body = ' '.join(m.group(0).split())
+    if body != CRC_CALC_BODY:
+        return 'the text of class crc32_calc changed:\n  found:    %s\n  expected: %s' % (body, CRC_CALC_BODY)
+    uses = open(os.path.join(vlib.REPO, 'src', 'session_posix_file_storage.cpp')).read()
+    for need in ('crc_calc.process_bytes(in.data(),in.size());', 'crc_calc.process_bytes(&buffer.front(),size);'):
+        if uses.count(need) != 1 or uses.count('process_bytes') != 2:
+            return 'src/session_posix_file_storage.cpp no longer feeds crc32_calc with exactly: ' + need
+    return None
 
 
 V0 = '0123456789abcdef0123456789abcdef'
@@ -139,6 +172,69 @@ def force_crc(data, pos, target):
     data[pos:pos + 4] = bytes(out)
     assert zlib.crc32(bytes(data)) == target
     return bytes(data)
+
+
+BIG = 4096          # values longer than this are answered by the harnesses as #len.crc32 and written in cases as @len.seed.flip
+_PAT = {}
+
+
+def pattern(ln, seed, flip=-1):
+    """position-dependent content: byte i = (seed + 31 i + 17 (i>>8) + 101 (i>>16)) & 255, byte `flip` xored with 0x5a (same in the
+    harness and in the model driver)"""
+    k = (ln, seed, flip)
+    if k not in _PAT:
+        b = bytearray((seed + 31 * i + 17 * (i >> 8) + 101 * (i >> 16)) & 255 for i in range(max(ln, 0)))
+        if 0 <= flip < ln:
+            b[flip] ^= 0x5a
+        if len(_PAT) > 64:
+            _PAT.clear()
+        _PAT[k] = bytes(b)
+    return _PAT[k]
+
+
+def pat(ln, seed, flip=-1):
+    return '@%d.%d.%d' % (ln, seed, flip)
+
+
+def payload(tok):
+    if tok.startswith('@'):
+        v = [int(x) for x in tok[1:].split('.')] + [0, -1]
+        return pattern(v[0], v[1], v[2] if len(tok[1:].split('.')) > 2 else -1)
+    return unhex(tok)
+
+
+class Val(object):
+    """a session value as the oracle sees it: length, CRC-32 and (for values up to BIG bytes) the bytes"""
+    __slots__ = ('n', 'crc', 'head')
+
+    def __init__(self, n, crc, head):
+        self.n, self.crc, self.head = n, crc, head
+
+    def __len__(self):
+        return self.n
+
+    def __eq__(self, o):
+        return isinstance(o, Val) and (self.n, self.crc, self.head) == (o.n, o.crc, o.head)
+
+    def __ne__(self, o):
+        return not self.__eq__(o)
+
+    def __hash__(self):
+        return hash((self.n, self.crc))
+
+    def prev(self):
+        return self.head[:32].hex() if self.head is not None else '#%d.%08x' % (self.n, self.crc)
+
+
+def val(b):
+    return Val(len(b), zlib.crc32(b), b if len(b) <= BIG else None)
+
+
+def parse_val(tok):
+    if tok.startswith('#'):
+        n, c = tok[1:].split('.')
+        return Val(int(n), int(c, 16), None)
+    return val(unhex(tok))
 
 
 def garbage(rng, ln):
@@ -449,6 +545,57 @@ def gen_cases(ctx):
         hk = [rng.choice([0, 1, 2, 3, 4, 7, 8]) for _ in range(rng.randrange(1, 7))] + ks
         cases.append(case([first, 'Y:%d:%d' % (rng.choice([1000, 1000, 3001]), rng.choice([1, 2, 3, 7, 8])), 'H:0:1000:%s' % ','.join(map(str, hk)), L(0, 1000)],
                           flock=rng.randrange(2)))
+    # G15: the class crc32_calc itself (Z lines): buffers with position-dependent content of lengths around every plausible block boundary,
+    # fed whole and in pieces; pairs that agree on a long prefix (the first 4 KiB / 64 KiB / 128 KiB) and differ in one later byte
+    big = []
+    zl = []
+    for ln in [0, 1, 2, 3, 15, 16, 17, 255, 256, 257, 4095, 4096, 4097, 8191, 8192, 8193, 32767, 32768, 32769]:
+        seed = rng.randrange(256)
+        zl.append('%d.%d.-1' % (ln, seed))
+        if ln > 1:
+            zl.append('%d.%d.%d' % (ln, seed, ln - 1))
+            zl.append('%d.%d.%d:%s' % (ln, seed, rng.randrange(ln), ','.join(str(rng.choice([1, 2, ln // 2, ln - 1, 4096])) for _ in range(rng.randrange(1, 4)))))
+    for i in range(0, len(zl), 12):
+        cases.append('Z ' + ' '.join(zl[i:i + 12]))
+    for ln in [65535, 65536, 65537, 131071, 131072, 131073] + ([rng.choice([70000, 100000, 196609, 262145])] if ctx.quick() else [70000, 100000, 196608, 196609, 262144, 262145, 300000, 524289]):
+        seed = rng.randrange(256)
+        late = [f for f in (ln - 1, 65536, 65537, 131072, rng.randrange(ln // 2, ln)) if 0 <= f < ln]
+        toks = ['%d.%d.-1' % (ln, seed), '%d.%d.%d' % (ln, seed, rng.choice(late)),
+                '%d.%d.%d:%s' % (ln, seed, late[0], rng.choice(['65536', '65535,2', '4096,4096', '1', str(ln - 1), '32768,32768,32768']))]
+        big.append('Z ' + ' '.join(toks))
+    big.append('Z 1048577.%d.-1 1048577.%d.1048576' % (7, 7))
+    if not ctx.quick():
+        big.append('Z 4194305.3.-1:65536,65536 4194305.3.4194304 4194305.3.70000')
+    # G16: crash states of LARGE values (64 KiB .. 300 KiB, content by pattern so that the lines stay short): new and old values of equal and
+    # different lengths, the save dying beyond 64 KiB at sector boundaries and mid-sector (every sector flushed up to that point), and
+    # sector subsets; a checksum that does not cover the whole value lets the mixture new[0..k) ++ old[k..n) through
+    sizes = [65537, 66000, 70000, 131073] + [rng.choice([90000, 150000, 200000])] + ([300000] if rng.random() < 0.5 or not ctx.quick() else [])
+    for n_new in sizes:
+        k = nsect(n_new)
+        total = 16 + n_new
+        s_new, s_old = rng.randrange(256), rng.randrange(256)
+        for rep in range(ctx.scale(2, 6) if n_new < 200000 else 1):
+            n_old = rng.choice([n_new, n_new, n_new + rng.choice([1, 512, 5000]), max(0, n_new - rng.choice([1, 3000])), 0])
+            kk = rng.choice([65536, 65537, 65536 + 496, 66048 - 16, 66048 - 16 + rng.randrange(1, 512), n_new - 1, n_new - 513, rng.randrange(65536, n_new),
+                             rng.randrange(16, 65536)])
+            kk = max(0, min(kk, n_new))
+            p = 16 + kk
+            if rng.random() < 0.75:
+                ps = [p] * k                                              # the save died after p bytes, everything written so far reached the disk
+            else:
+                ps = [rng.choice([p, p, 0, total]) for _ in range(k)]      # sector subsets
+            pre = ['S:0:2000:' + pat(n_old, s_old)] if n_old else []
+            big.append(case(pre + ['K:0:3000:%s:%s' % (pat(n_new, s_new), ','.join(map(str, ps))), L(0, 1000), L(0, 1000)], flock=rng.randrange(2)))
+    # a complete large save and load, short writes/reads of a large value, and the header of a large value over data that differs from it in
+    # one late byte (sector 0 of the second save not written, every later sector written in full): must be refused
+    n = rng.choice([65537, 70000, 140000])
+    sd = rng.randrange(256)
+    big.append(case(['S:0:3000:' + pat(n, sd), L(0, 1000), 'W:0:3000:%s:16,65536,1,0' % pat(n, sd), 'D:0:1000:65536,1,4096', L(0, 1000)]))
+    for fl in (n - 1, 65536, rng.randrange(65536, n)):
+        big.append(case(['S:0:3000:' + pat(n, sd), 'K:0:4000:%s:%s' % (pat(n, sd, fl), ','.join(['0'] + [str(16 + n)] * (nsect(n) - 1))), L(0, 1000)]))
+    # spread the heavy lines over the whole list: the runners split the list into contiguous parts
+    for j, c in enumerate(big):
+        cases.insert((j + 1) * len(cases) // (len(big) + 1), c)
     # G10: threads on one session (per-sid mutex, with and without the fcntl lock): a load that runs while other threads save must see a
     # complete record, never a half-written one (which it would also unlink)
     for _ in range(ctx.scale(12, 60)):
@@ -627,9 +774,42 @@ def parse_summary(tok):
     return tok[:i], m
 
 
+def zspec(tok):
+    a = tok.split(':')
+    v = [int(x) for x in a[0].split('.')]
+    return v[0], v[1], (v[2] if len(v) > 2 else -1)
+
+
+def oracle_z(case_line, out):
+    """crc32_calc(x), fed in any pieces, must be zlib.crc32(x) for every x; two buffers that differ in one byte must differ in their checksum"""
+    if out.startswith('<crash') or out.startswith('<missing'):
+        return ('crash', 'harness died on this script: ' + out[:300])
+    toks = case_line.split()[1:]
+    o = out.split(' ') if out else []
+    if len(o) != len(toks):
+        return ('bad-output', 'harness answered %d tokens for %d buffers: %s' % (len(o), len(toks), out[:200]))
+    seen = {}
+    for tok, got in zip(toks, o):
+        ln, seed, flip = zspec(tok)
+        k = (ln, seed)
+        if k in seen and seen[k][0] != flip and seen[k][1] == got:
+            return ('crc32-calc-ignores-bytes',
+                    'crc32_calc gave the same checksum %s for two buffers of %d bytes that differ (only) at byte %s: the checksum written by save '
+                    'and compared by load does not cover the whole value' % (got, ln, sorted(x for x in (flip, seen[k][0]) if x >= 0)))
+        seen.setdefault(k, (flip, got))
+    for tok, got in zip(toks, o):
+        ln, seed, flip = zspec(tok)
+        want = '%08x' % zlib.crc32(pattern(ln, seed, flip))
+        if got != want:
+            return ('crc32-calc-wrong', 'crc32_calc answered %s for the %d-byte buffer %s, CRC-32 is %s' % (got, ln, tok, want))
+    return None
+
+
 def oracle(case_line, out):
     if case_line.startswith('E '):
         return oracle_e2e(case_line, out)
+    if case_line.startswith('Z '):
+        return oracle_z(case_line, out)
     if out.startswith('<crash') or out.startswith('<missing'):
         return ('crash', 'harness died on this script: ' + out[:300])
     c = case_line.split()
@@ -708,7 +888,7 @@ def oracle(case_line, out):
             cut_write = any(k != 0 for k in ks)
             op = 'S'
         if op in ('S', 'K'):
-            i, t, d = int(a[1]), int(a[2]), unhex(a[3])
+            i, t, d = int(a[1]), int(a[2]), val(payload(a[3]))
             if op == 'S':
                 adm[i], must[i], cands[i], dead[i], shortp[i], shortw[i] = {(t, d)}, (t, d), [(t, d)], ('t', t), None, cut_write
                 if i not in summ:
@@ -721,8 +901,9 @@ def oracle(case_line, out):
                     shortp[i] = (shortp[i][0], True)
             known_absent[i] = False
         elif op == 'P':
-            i, raw = int(a[1]), unhex(a[2])
+            i, raw = int(a[1]), payload(a[2])
             rec = parse_record(raw)
+            rec = (rec[0], val(rec[1])) if rec else None
             adm[i] = {rec} if rec else set()
             must[i] = rec
             cands[i] = [rec] if rec else []
@@ -755,8 +936,8 @@ def oracle(case_line, out):
                             % (must[i][0], len(must[i][1])))
                 adm[i], must[i], cands[i], dead[i], known_absent[i], shortp[i], shortw[i] = set(), None, [], None, True, None, False
             else:
-                ts, hx_ = res[2:].split('.')
-                got = (int(ts), unhex(hx_))
+                ts, hx_ = res[2:].split('.', 1)
+                got = (int(ts), parse_val(hx_))
                 if i not in summ:
                     return ('load-removed-live-file', 'load succeeded but the file is gone')
                 if now > 0:
@@ -772,21 +953,21 @@ def oracle(case_line, out):
                                 % (must[i][0], len(must[i][1]), got[0], len(got[1])))
                     if got not in adm[i]:
                         coll = [x for x in cands[i] if x[0] == got[0] and len(x[1]) == len(got[1])
-                                and zlib.crc32(x[1]) == zlib.crc32(got[1]) and x[1] != got[1]]
+                                and x[1].crc == got[1].crc and x[1] != got[1]]
                         if coll:
                             return ('torn-write-crc32-collision',
                                     'after a torn save load returned %d bytes that carry the deadline, length and CRC-32 of the header of a '
                                     'saved value but are not that value (mixture of old and new bytes): got %s, header belongs to %s'
-                                    % (len(got[1]), got[1][:32].hex(), coll[0][1][:32].hex()))
+                                    % (len(got[1]), got[1].prev(), coll[0][1].prev()))
                         if shortp[i] is not None and shortp[i][1]:
                             pt, pc, pz = struct.unpack('<qII', shortp[i][0] + bytes(16 - len(shortp[i][0])))
-                            if got[0] == pt and len(got[1]) == pz and zlib.crc32(got[1]) == pc:
+                            if got[0] == pt and len(got[1]) == pz and got[1].crc == pc:
                                 return ('short-garbage-header-completed-by-hole',
                                         'a planted file of %d bytes (shorter than a header, unreadable) was extended by a crashed save that did not '
                                         'write sector 0; the hole completed its header with zeros and load returned deadline %d with %d bytes, '
                                         'which no save wrote' % (len(shortp[i][0]), got[0], len(got[1])))
                         return ('load-returned-unsaved-value', 'load returned deadline %d data %s (%d bytes), which no earlier save wrote'
-                                % (got[0], got[1][:32].hex(), len(got[1])))
+                                % (got[0], got[1].prev(), len(got[1])))
                 adm[i], must[i] = {got}, got
         elif op == 'G':
             now = int(a[1])
@@ -816,12 +997,16 @@ def oracle(case_line, out):
 
 
 def nontrivial(case_line, out):
+    if case_line.startswith('Z '):
+        return True
     if case_line.startswith('E '):
         return ' C:' in case_line or ' J:' in case_line
     return ' K:' in case_line or ' W:' in case_line or ' D:' in case_line or ' H:' in case_line or ' Y:' in case_line or ' P:' in case_line or ' G:' in case_line or ' V:' in case_line or ' Q:' in case_line or ' T:' in case_line or ' U:' in case_line or ' M:' in case_line
 
 
 def classify(case_line, out):
+    if case_line.startswith('Z '):
+        return 'crc32_calc:' + ('>64KiB' if any(zspec(t)[0] > 65536 for t in case_line.split()[1:]) else '<=64KiB')
     if case_line.startswith('E '):
         last = [x for x in out.split(' ') if x.startswith('R=')]
         return 'api:' + ('crash' if ' C:' in case_line else 'garbage' if ' J:' in case_line else 'save-load') + (':none' if last and last[-1].startswith('R=none') else ':some' if last else '')
@@ -831,6 +1016,8 @@ def classify(case_line, out):
     if k == 'crash':
         ks = [x for x in ops if x[0] == 'K']
         ns = len(ks[-1].split(':')[4].split(','))
+        if '@' in ks[-1]:
+            k += ':large'
         k += ':1-sector' if ns <= 1 else ':%d-sectors' % ns if ns <= 3 else ':4+sectors'
     last = [x for x in out.split(' ') if x.startswith('L=')]
     if 'Q' in kinds:
@@ -845,6 +1032,9 @@ def run(ctx):
     e = gen_sid_leaf(ctx)
     if e:
         ctx.broke('translator cxx2v failed on session_sid::valid_sid (tie to source broken)', e)
+    e = crc_calc_tie()
+    if e:
+        ctx.broke('tie: cppcms::impl::crc32_calc / its two uses no longer have the text the model crc32_calc was written from', e)
     res = vlib.coq_props('C18')
     ctx.proof(res)
     ctx.coverage['trusted_base'] = [
@@ -852,6 +1042,7 @@ def run(ctx):
         'tools/cxx2v.py + clang JSON AST (CRC table of private/crc32.h, via harness/C18_crc_tu.cpp; per-character test of session_sid::valid_sid, '
         're-wrapped from the transducer form by checks/C18.py:gen_sid_leaf)',
         'extraction: ExtrOcamlBasic only, OCaml 4.13.1',
+        'checks/C18.py:crc_calc_tie (text of class crc32_calc and of its two call sites); Python zlib.crc32 as the reference checksum in the oracle',
         'harness/C18_session.cpp (same interposition and materialisation, public session API, judged by the oracle only)',
         'harness/C18_filestore.cpp (interposed write()/read()/time()/operator new, crash-state materialisation from the recorded writes, own bitwise CRC for '
         'file summaries), ocaml/C18_driver.ml, checks/C18.py (generators; oracle with Python struct/zlib as reference reader)',
@@ -867,7 +1058,7 @@ def run(ctx):
     # the two harnesses and the extracted model are independent builds: run them side by side
     import concurrent.futures
     with concurrent.futures.ThreadPoolExecutor(3) as ex:
-        f1 = ex.submit(vlib.build_harness, 'C18_filestore', ['C18_filestore.cpp'])
+        f1 = ex.submit(vlib.build_harness, 'C18_filestore', ['C18_filestore.cpp'], False, True, ['-Wl,--no-as-needed', '-lz'])   # crc32_calc is inline over zlib
         f2 = ex.submit(vlib.build_model, 'C18', 'C18_driver.ml', 'c18m')
         f3 = ex.submit(vlib.build_harness, 'C18_session', ['C18_session.cpp'])
         (exe, err), (mexe, err_m), (exe2, err2) = f1.result(), f2.result(), f3.result()
@@ -909,7 +1100,9 @@ def run(ctx):
     os.makedirs(base, exist_ok=True)
     try:
         if cases:
-            vlib.differential(ctx, cases, exe, mexe, oracle, nontrivial, classify, impl_env={'C18_DIR': base})
+            # the extracted list functions recurse once per byte: values of 300 KiB need more than the default 8 MiB of stack
+            mcmd = ['bash', '-c', 'ulimit -s 4194304 2>/dev/null || ulimit -s unlimited 2>/dev/null; exec "$0"', mexe] if mexe else None
+            vlib.differential(ctx, cases, exe, mcmd, oracle, nontrivial, classify, impl_env={'C18_DIR': base})
         if ecases:
             # no model here: the oracle alone judges what the public session API returns
             vlib.differential(ctx, ecases, exe2, None, oracle, nontrivial, classify, impl_env={'C18_DIR': base},
